@@ -234,7 +234,8 @@ type recorder struct {
 	tmode bool
 	t0    time.Time
 	lines []M
-	tld   time.Duration            // how long the OnTimeoutExceeded listener takes
+	tld   time.Duration // how long the OnTimeoutExceeded listener takes
+	curX  atomic.Int32
 	after func(name string, x int) // T mode: called after an attempt event has been logged, still inside the listener (inline cancellations)
 	mute  bool                     // events are not recorded (while the harness operates a spare policy during construction)
 }
@@ -248,6 +249,15 @@ func xOf(ctx context.Context) int {
 		return v
 	}
 	return 0
+}
+
+// xOf: the execution an event belongs to; executions started WITHOUT a context of their own (they never overlap) are told apart by
+// curX, the one under way in this scenario
+func (r *recorder) xOf(ctx context.Context) int {
+	if v, ok := ctx.Value(xKey).(int); ok {
+		return v
+	}
+	return int(r.curX.Load())
 }
 
 func (r *recorder) vnow() int64 {
@@ -344,13 +354,13 @@ func (r *recorder) attempt(name string, layer int, a failsafe.ExecutionAttempt[s
 					break
 				}
 			}
-			return M{"ev": name, "x": xOf(a.Context()), "L": layer, "att": att, "exe": exe, "ret": ret, "hdg": hdg,
+			return M{"ev": name, "x": r.xOf(a.Context()), "L": layer, "att": att, "exe": exe, "ret": ret, "hdg": hdg,
 				"lr": resName(a.LastResult()), "le": projectErr(le), "st": int64(a.StartTime().Sub(r.t0) / r.unit), "el": int64(a.ElapsedTime() / r.unit),
 				"ast": int64(a.AttemptStartTime().Sub(r.t0) / r.unit), "ael": int64(a.ElapsedAttemptTime() / r.unit),
 				"first": first, "retry": retry, "ishedge": a.IsHedge()}
 		}, x)
 		if r.after != nil {
-			r.after(name, xOf(a.Context()))
+			r.after(name, r.xOf(a.Context()))
 		}
 		return
 	}
@@ -362,7 +372,7 @@ func (r *recorder) info(name string, layer int, a failsafe.ExecutionInfo, res st
 	if r.tmode {
 		r.tlineF(func() M {
 			att, exe, ret, hdg := stableCounters(a)
-			return M{"ev": name, "x": xOf(a.Context()), "L": layer, "att": att, "exe": exe, "ret": ret, "hdg": hdg,
+			return M{"ev": name, "x": r.xOf(a.Context()), "L": layer, "att": att, "exe": exe, "ret": ret, "hdg": hdg,
 				"lr": resName(res), "le": projectErr(err), "st": int64(a.StartTime().Sub(r.t0) / r.unit), "el": int64(a.ElapsedTime() / r.unit)}
 		}, x)
 		return
